@@ -35,7 +35,7 @@ def main():
             res["checks"][c] = {"caught": "VIOLATION" in out, "with_failing_input": "VIOLATION" in out and "no-failing-input-found" not in out,
                                 "output": out[-600:]}
     finally:
-        sh("git -C /repo checkout -- . && git -C /repo clean -fdq && python3 /verif/harness/importgraph.py --regenerate && git -C /verif checkout -- evidence")
+        sh("git -C /repo checkout -- . && git -C /repo clean -fdq && python3 /verif/harness/importgraph.py --regenerate && python3 /verif/harness/py2lean.py >/dev/null && git -C /verif checkout -- evidence")
     ok = res["demo_on_clean"] == 0 and res["demo_with_patch"] not in (0, None) and "140 passed" in (res["tests_with_patch"] or "")
     res["confirmed"] = ok
     meta["verification"] = res
